@@ -11,7 +11,7 @@ EXPLANATION = (
     "ErrorKind to Error::new/for_app; the constructor->kind table is checked against the name-derived / documented table. "
     "R10.3: in Parser::verify_num_args every error constructor is guarded by the comparison that justifies it "
     "(operator and operand roles). R10.4: did_you_mean only returns strings taken from the iterated candidates and its "
-    "call sites pass iterators over defined names. R10.5 (necessary for `valid lines are not rejected` by the count check): "
+    "call sites pass iterators over defined names. R10.4b the `For more information, try '<x>'` hint names something that exists: error::format::get_help_flag returns `--help` only when the help flag is not disabled, a user help flag when one is defined, `help` only when the command has subcommands and the help subcommand is not disabled. R10.5 (necessary for `valid lines are not rejected` by the count check): "
     "in Parser::parse the pending values of a positional are resolved before the next positional token unless that token "
     "belongs to the same argument AND the argument is multi-valued (is_multiple_values_set) — pooling values of separate "
     "occurrences of a single-valued positional would be counted as one occurrence by verify_num_args. R10.6 (sibling "
@@ -228,3 +228,25 @@ def run(ctx):
     # the flag loop: NoMatchingArg is produced on the first character for which contains_short/find fails
     nm_ = [i for i, j, s_ in ps.stmts() if s_["k"] == "assign" and s_["rv"]["k"] == "agg" and s_["rv"].get("variant") == "NoMatchingArg"]
     res.check(bool(nm_), "R10.6", "flag-loop-rejects-unknown-char", ps.where(), "flag loop returns NoMatchingArg at an unknown character", "flag loop no longer produces NoMatchingArg")
+
+
+    # ---- R10.4b the help hint names an existing flag / subcommand
+    ghf = fx.body("clap_builder::error::format::get_help_flag")
+    hints = [(i, s_) for i, j, s_ in ghf.stmts() if s_["k"] == "assign" and s_["place"] == 0 and s_["rv"]["k"] == "agg" and s_["rv"].get("variant") == "Some"]
+    res.floor("R10.4", "hints returned by get_help_flag", len(hints), 3)
+    for i, s_ in hints:
+        v = expr(ghf, s_["rv"]["ops"][0])
+        gl = guard_strs(ghf, i)
+        if "'--help'" in v:
+            ok = "F:is_disable_help_flag_set(cmd)" in gl
+            why = "`--help` is suggested although the help flag may be disabled"
+        elif "'help'" in v:
+            ok = "T:has_subcommands(cmd)" in gl and "F:is_disable_help_subcommand_set(cmd)" in gl
+            why = "the `help` subcommand is suggested without checking that it exists (has_subcommands && !disable_help_subcommand)"
+        elif "get_user_help_flag(cmd)#Some.0" in v:
+            ok = "V1:get_user_help_flag(cmd)" in gl
+            why = "user help flag suggested without having found one"
+        else:
+            ok, why = False, "unrecognised hint %s" % v[:60]
+        res.check(ok, "R10.4", "help-hint|" + ("--help" if "'--help'" in v else "help" if "'help'" in v else "user" if "get_user_help_flag" in v else "other"), "%s bb%d" % (ghf.where(), i),
+                  "hint %s only when it exists" % v[:40], why + " (guards %s)" % gl)
